@@ -34,11 +34,35 @@ Definition read_quoted (q : N) (x : list N) : option (list N * list N) :=
 Definition read_dq := read_quoted 34.
 Definition read_sq := read_quoted 39.
 
+(* Display for a QUOTED CssString (css/string.rs, rsass 71d4ea9), kept here so that C09 does
+   not depend on the shape of Model/CssStr.css_display: the quote character is escaped, a
+   private-use character is written as a hex escape, followed by a space when a hex digit or a
+   space comes next *)
+Definition is_hexdigit (c : N) : bool :=
+  is_ascii_digit c || ((97 <=? c) && (c <=? 102)) || ((65 <=? c) && (c <=? 70)).
+Fixpoint disp_body (q : N) (v : list N) : list N :=
+  match v with
+  | [] => []
+  | c :: r =>
+      (if c =? q then [92; c]
+       else if is_private_use c then
+         92 :: hex_of_N c ++ match r with
+                             | n :: _ => if is_hexdigit n || (n =? 32) then [32] else []
+                             | [] => []
+                             end
+       else [c]) ++ disp_body q r
+  end.
+Definition display_q (s : cssstring) : list N :=
+  match quote_char (s_q s) with
+  | Some q => q :: disp_body q (s_val s) ++ [q]
+  | None => []
+  end.
+
 (* print a quoted string, read it back as plain CSS, print it again *)
 Definition reprint (s : cssstring) : option (list N * list N) :=
   match quote_char (s_q s) with
-  | Some q => match read_quoted q (css_display s) with
-              | Some (v, rest) => Some (css_display (mkStr v (s_q s)), rest)
+  | Some q => match read_quoted q (display_q s) with
+              | Some (v, rest) => Some (display_q (mkStr v (s_q s)), rest)
               | None => None
               end
   | None => None
@@ -47,8 +71,8 @@ Definition reprint (s : cssstring) : option (list N * list N) :=
 (* the value parser wraps the string with From<CssString> for Value, i.e. pref_dquotes *)
 Definition reprint_value (s : cssstring) : option (list N * list N) :=
   match quote_char (s_q s) with
-  | Some q => match read_quoted q (css_display s) with
-              | Some (v, rest) => Some (css_display (pref_dquotes (mkStr v (s_q s))), rest)
+  | Some q => match read_quoted q (display_q s) with
+              | Some (v, rest) => Some (display_q (pref_dquotes (mkStr v (s_q s))), rest)
               | None => None
               end
   | None => None
